@@ -10,7 +10,7 @@ PROP = dict(
     level="proof",
     exhaustive=False,
     rule="one evaluation = one step of a random operation history (<= 30 ops; add/update/remove/flush/reopen/close+open; "
-         "4 keys related by prefix — 0, 1, 2 or 3 syllables — x 5 phrases) on the real TrieBuf (in-memory, file-backed with the snapshot writer waited "
+         "4 keys related by prefix — 0, 1, 2 or 3 syllables — x 6 phrases, one beginning with U+10FFFF) on the real TrieBuf (in-memory, file-backed with the snapshot writer waited "
          "for), Trie, Layered (user layer in-memory or file-backed, every call made through Layered) or SqliteDictionary: "
          "the model replays the whole history and must reproduce the result of the step, the lookups (n in {0,1,2,MAX}, both "
          "strategies, and the provided trait methods lookup_first_phrase / lookup_all_phrases) and the enumeration, in order; "
@@ -26,10 +26,12 @@ PROP = dict(
         "Pieces: comparator_is_C11 (leafCmp, updated to fix ddfe893, = C11's phraseLt), leaf_order_is_C11 (isort = sortLeaf: stable sorts "
         "under a total preorder are unique, Proofs/StableSort.lean), builder_insert_is_C11 (insRepl = upsert on leaves with distinct texts), "
         "the byte-level fuzzy walk visits keys in lexicographic order (reach_paths_sorted). Explicit hypotheses: ValidInput, Fits",
-        "phrase texts do not begin with U+10FFFF (class MaxCodePointPhrase, refutation proved); frequencies fit u32, times u64",
+        "frequencies fit u32, times u64 (no precondition on phrase texts any more: the U+10FFFF range bound is fixed, "
+        "max_code_point_phrase_fixed)",
         "the leaf comparator of TrieBuilder::write is a total preorder on all leaves since repository fix ddfe893 (model follows it; "
         "leaf_order_any_stable_sort: the model's leaf does not depend on the algorithm slice::sort_by runs)",
-        "known findings F10 (UpdatePersisted) and F36 (FuzzyOverTombstoneOrPending) are excluded by exact decidable classes",
+        "known finding F36 (FuzzyOverTombstoneOrPending, prefix lookups only) is excluded by an exact decidable class; exact lookups and "
+        "the enumeration carry no exclusion (F10 UpdatePersisted fixed)",
         "SQLite user dictionary: relational reading of its eight SQL statements (INSERT OR REPLACE, LEFT JOIN, ORDER BY with "
         "NULLs first and BINARY collation, rowid = largest id + 1) is trusted; its specification SMap differs from MapSpec by "
         "design of the back end (value = (freq, Option(user_freq, time)), reported frequency = max, add replaces instead of "
@@ -41,22 +43,25 @@ MANIFEST = dict(
     text="Lean 4 theorems (Chewing/Props/C09.lean), proved for all histories by induction: TrieBuf (trie snapshot + pending "
          "B-tree + graveyard, sequential snapshot writer with file/in-flight state) refines the abstract map MapSpec along "
          "every operation history (invariant + snapshot lemma: the file built from entries() denotes the same map); add is "
-         "rejected exactly on live keys; exact lookups and enumerations are the map's in every state of an in-memory "
-         "dictionary, and of a file-backed one outside the exact decidable classes UpdatePersisted / "
-         "FuzzyOverTombstoneOrPending (refutations proved with the concrete witnesses; the set of phrases returned is right "
-         "even inside them); the classes are transient: after any history, reopen;flush;reopen or close-and-open leaves "
-         "nothing pending and every answer (exact, prefix, enumeration) is the map's (adoption_answers, close_open_answers); "
-         "removed stays absent, re-add/update visible again; Layered = union, one entry per phrase, highest frequency, "
+         "rejected exactly on live keys; EXACT LOOKUPS AND THE ENUMERATION ARE THE MAP'S IN EVERY STATE of every history, in-memory "
+         "or file-backed, with no precondition on the calls (C09_exact : C09_exact_full, lookup_exact, entries_exact; on an exact lookup "
+         "the de-duplication loop is the identity, lookup_is_candidates); PREFIX lookups are the map's outside the exact decidable class "
+         "FuzzyOverTombstoneOrPending (fuzzy_exact; refutations proved with the concrete witnesses, C09_full_refuted); the class is "
+         "transient: after any history, reopen;flush;reopen or close-and-open leaves nothing pending and every answer (exact, prefix, "
+         "enumeration) is the map's (adoption_answers, close_open_answers); removed stays absent, re-add/update visible again with exactly "
+         "the written value (readd_visible_again, update_visible, pending_is_reported); Layered = union, one entry per phrase, highest frequency, "
          "first-appearance order, and under any history applied through Layered its answer is system layers + the user's map "
          "(layered_history, layered_history_file); first n = prefix of the full result for TrieBuf, Layered, Trie and SQLite, "
          "lookup_first_phrase = its head. SQLite (relational model of the two tables): refinement and exact answers in every "
          "state, no exclusion. Correspondence part (not a theorem): the hand-written models are tied to the code by replaying "
          "random histories (quick: ~55 000 steps) through model and implementation and comparing every answer in order, plus "
          "a reference-map oracle on the implementation that yields the concrete failing history.",
-    note="Two fix: commits in the repository (F09 tombstone lifted on add/update, F11 Trie first-n truncation); F10, F36 and "
-         "MaxCodePointPhrase are known findings (F10/F36 share one root cause — Trie::lookup_all_phrases does not return the "
-         "key of a persisted phrase, so pending/tombstoned entries cannot be merged by key; repairing it changes the Trie "
-         "interface, hence recorded, not fixed). Trusted: Lean kernel (propext, Classical.choice, Quot.sound), the harness, "
+    note="Four fix: commits in the repository (F09 tombstone lifted on add/update, F11 Trie first-n truncation, F10 a pending entry "
+         "replaces the persisted one with the same key in entries() and lookups, C09-N1 the pending range is no longer cut at U+10FFFF; "
+         "regression theorems update_persisted_fixed, max_code_point_phrase_fixed). F36 is the one known finding left: "
+         "Trie::lookup_first_n_phrases returns bare phrases — its breadth-first walk does not keep the key a persisted phrase was found "
+         "under — so for a PREFIX query pending/tombstoned entries cannot be merged by key without a key-yielding lookup in trie.rs "
+         "(interface change, recorded, not fixed). Trusted: Lean kernel (propext, Classical.choice, Quot.sound), the harness, "
          "the compiled model driver, the relational reading of SQL. Not covered: SQLite v1 migration, concurrent writer "
          "schedules (C10), order of Trie::entries across keys (C11 proves the enumeration up to permutation of the keys). The byte format is no "
          "longer an uncovered assumption: C09.file_layer_is_C11 / snapshot_file_is_C11 derive the List-Leaf file layer from C11's theorems.",
